@@ -1,4 +1,5 @@
 import SlogModel.Model.Ser
+import SlogModel.Lemmas.Msgpack
 import SlogModel.Gen.Facts
 
 /-!
@@ -19,70 +20,6 @@ import SlogModel.Gen.Facts
 
 namespace C10
 open MP Ser
-
-/-! ### primitives -/
-
-theorem rd16_be16 (n : Nat) (h : n < 65536) (r : Bytes) : rd16 (be16 n ++ r) = some (n, r) := by
-  simp [rd16, be16]; omega
-
-theorem rd32_be32 (n : Nat) (h : n < 4294967296) (r : Bytes) : rd32 (be32 n ++ r) = some (n, r) := by
-  simp [rd32, be32]; omega
-
-theorem takeN_append (v r : Bytes) : takeN v.length (v ++ r) = some (v, r) := by
-  simp [takeN]
-
-theorem decode_fixstr (d c : Nat) (r : Bytes) (h1 : 160 ≤ c) (h2 : c < 192) :
-    decode d (c :: r) = (takeN (c - 160) r).map (fun (s, r') => (.str s, r')) := by
-  rw [decode.eq_def]
-  have a1 : ¬ (c < 128) := by omega
-  have a2 : ¬ (c < 144) := by omega
-  have a3 : ¬ (c < 160) := by omega
-  simp [a1, a2, a3, h2]
-
-theorem decode_str16 (d : Nat) (r : Bytes) :
-    decode d (218 :: r) = (rd16 r).bind (fun (n, r1) => (takeN n r1).map (fun (s, r') => (.str s, r'))) := by
-  rw [decode.eq_def]; simp
-
-theorem decode_str32 (d : Nat) (r : Bytes) :
-    decode d (219 :: r) = (rd32 r).bind (fun (n, r1) => (takeN n r1).map (fun (s, r') => (.str s, r'))) := by
-  rw [decode.eq_def]; simp
-
-theorem decode_fixmap (d c : Nat) (r : Bytes) (h1 : 128 ≤ c) (h2 : c < 144) :
-    decode (d + 1) (c :: r) = (decodePairs d (c - 128) r).map (fun (kv, r') => (.map kv, r')) := by
-  rw [decode.eq_def]
-  have a1 : ¬ (c < 128) := by omega
-  simp [a1, h2]
-
-theorem decode_map16 (d : Nat) (r : Bytes) :
-    decode (d + 1) (222 :: r) =
-      (rd16 r).bind (fun (n, r1) => (decodePairs d n r1).map (fun (kv, r') => (.map kv, r'))) := by
-  rw [decode.eq_def]; simp
-
-theorem decode_fixarray (d c : Nat) (r : Bytes) (h1 : 144 ≤ c) (h2 : c < 160) :
-    decode (d + 1) (c :: r) = (decodeSeq d (c - 144) r).map (fun (l, r') => (.arr l, r')) := by
-  rw [decode.eq_def]
-  have a1 : ¬ (c < 128) := by omega
-  have a2 : ¬ (c < 144) := by omega
-  simp [a1, a2, h2]
-
-theorem decode_fixext8 (d : Nat) (r : Bytes) :
-    decode d (215 :: r) = (rd8 r).bind (fun (ty, r1) => (takeN 8 r1).map (fun (s, r') => (.ext ty s, r'))) := by
-  rw [decode.eq_def]; simp
-
-theorem decode_encStr (d : Nat) (v rest : Bytes) (h : v.length < 4294967296) :
-    decode d (encStr v ++ rest) = some (.str v, rest) := by
-  unfold encStr
-  by_cases h1 : v.length < 16
-  · simp only [h1, if_true, List.cons_append]
-    rw [decode_fixstr _ _ _ (by omega) (by omega)]
-    simp [takeN_append]
-  · by_cases h2 : v.length < 65536
-    · simp only [h1, h2, if_true, if_false, List.cons_append, List.append_assoc]
-      rw [decode_str16]
-      simp [rd16_be16 _ h2, takeN_append]
-    · simp only [h1, h2, if_false, List.cons_append, List.append_assoc]
-      rw [decode_str32]
-      simp [rd32_be32 _ h, takeN_append]
 
 theorem decode_strHdrByMax (d : Nat) (maxLen : Nat) (body rest : Bytes)
     (hle : body.length ≤ maxLen) (h : body.length < 4294967296) :
